@@ -58,6 +58,11 @@ CLAIMED = {
                  "name set (= all hash seeds); for every full assignment and every partial assignment sliced in 1-2 (3) steps the engine proves keyword == positional == dict == definition, "
                  "remaining dimensions == unassigned variables, and agreement on the completion.",
             "Bounded: 3 variables (4 thorough), domains 2-3, fixed linear expression strings with concrete coefficients; the set-order model picks one permutation of the name universe per run.", "4/C11", S),
+    "C14": ("S", "The repository's own YAML dump and load code is executed on DCOPs with symbolic extensional tables (the grouping of equal costs forks on cost equalities), symbolic capacities, routes and hosting "
+                 "costs and solver-chosen structure; yaml.dump/load are replaced by a capture/merge of the plain data during symbolic execution and the real YAML text layer is used in concrete replays; "
+                 "z3 decides equality of every constraint on every assignment and of every agent's capacity, routes and hosting costs.",
+            "PARTIAL (dict layer): PyYAML's text layer is trusted to round-trip plain data and is only exercised on replayed witnesses/counterexamples; one string / one file; symmetric routes and a common default route; "
+            "cost-function variables and external 'source:' constraints outside.", "4/C14", S),
     "C15": ("S", "Instances of 54 message classes (all algorithms, orchestration, discovery, replication) with symbolic numeric contents and solver-chosen discrete contents, "
                  "computation definitions of the four graph models built from symbolic DCOPs, and AgentDef objects go through the repository's simple_repr -> JSON round-trip model -> from_repr "
                  "(or __getstate__/__setstate__); field-by-field equality incl. relation values on every assignment is one z3 query per path. Two listed findings (infinite bounds are not JSON-encodable).",
